@@ -294,19 +294,28 @@ def main(module):
         out = os.path.join(scratch, "%s-%d-%d-%d.json" % (pid, os.getpid(), seed, i))
         cmd = [sys.executable, "-m", "vcdd.props." + pid.lower(), "--tier", a.tier, "--shard", "%d/%d" % (i, jobs),
                "--out", out, "--deadline", str(deadline)]
-        procs.append((i, out, subprocess.Popen(cmd, env=env, cwd=VERIF_ROOT, stdout=subprocess.PIPE,
-                                               stderr=subprocess.STDOUT)))
+        # shard output goes to a file, never to a pipe: the code under test prints (doctrans deltas, parser
+        # warnings) and a full pipe would block a shard until the parent gets round to reading it
+        logf = open(out + ".log", "wb")
+        procs.append((i, out, subprocess.Popen(cmd, env=env, cwd=VERIF_ROOT, stdout=logf, stderr=subprocess.STDOUT),
+                      logf))
     inconclusive = []
     hard_stop = deadline + getattr(module, "GRACE_S", 120)
-    for i, out, pr in procs:
+    for i, out, pr, logf in procs:
         try:
-            so, _ = pr.communicate(timeout=max(1, hard_stop - time.time()))
+            pr.wait(timeout=max(1, hard_stop - time.time()))
         except subprocess.TimeoutExpired:
             pr.kill()
-            so, _ = pr.communicate()
+            pr.wait()
             inconclusive.append("shard %d exceeded the wall-clock watchdog" % i)
+        logf.close()
         if pr.returncode not in (0, None) and not inconclusive:
-            inconclusive.append("shard %d exited %s: %s" % (i, pr.returncode, (so or b"")[-800:].decode("utf8", "replace")))
+            with open(out + ".log", "rb") as lf:
+                lf.seek(max(0, os.path.getsize(out + ".log") - 800))
+                tail = lf.read().decode("utf8", "replace")
+            inconclusive.append("shard %d exited %s: %s" % (i, pr.returncode, tail))
+        if os.path.exists(out + ".log"):
+            os.remove(out + ".log")
         if os.path.exists(out):
             with open(out) as f:
                 P.merge_json(f.read())
